@@ -146,6 +146,21 @@ pub fn gen_opt_tree(r: &mut Rng, depth: u32, ill: bool) -> E {
         };
     }
     let d = depth - 1;
+    // left-nested chains of ONE arithmetic/logical operator over variables and number literals: `x + 1 + 2`, `2 * x * 0.1 * 10`
+    // (what an algebraic "simplification" of the optimizer would rewrite), with magnitudes where grouping matters
+    if r.chance(1, 12) {
+        let op = *r.pick(&[O::Plus, O::Multiply, O::Minus, O::Divide, O::And, O::Or, O::Plus, O::Multiply]);
+        let atom = |r: &mut Rng| if r.chance(1, 3) { E::Variable { name: (*r.pick(&["a", "b", "x", "u"])).to_string() } }
+            else { E::Literal { value: V::Number(*r.pick(&[1.0, 2.0, 0.1, 0.2, 10.0, 1e16, 1e308, 0.5, 3.0, -1.0, 0.0])) } };
+        let mut e = if r.chance(2, 3) { E::Variable { name: (*r.pick(&["a", "b", "x", "u"])).to_string() } } else { atom(r) };
+        for _ in 0..(2 + r.below(3)) { e = E::Binary { left: Box::new(e), right: Box::new(atom(r)), operator: op }; }
+        return e;
+    }
+    // a variadic call with 100+ literal arguments (arity limits)
+    if r.chance(1, 60) {
+        let k = 95 + r.below(40);
+        return E::Call { name: (*r.pick(&["cnt", "last", "mk"])).to_string(), params: (0..k).map(|i| E::Literal { value: V::Number(i as f64) }).collect() };
+    }
     match r.below(14) {
         0 | 1 => E::Unary { right: Box::new(gen_opt_tree(r, d, ill)), operator: if ill && r.chance(1, 4) { *r.pick(&OPS) } else { *r.pick(&UNOPS) } },
         2..=5 => E::Binary { left: Box::new(gen_opt_tree(r, d, ill)), right: Box::new(gen_opt_tree(r, d, ill)), operator: if ill && r.chance(1, 5) { *r.pick(&OPS) } else { *r.pick(&BINOPS) } },
@@ -160,7 +175,9 @@ pub fn gen_opt_tree(r: &mut Rng, depth: u32, ill: bool) -> E {
 
 /// env history: ops over 2-3 base names x 3 spellings x {var, fn}
 pub fn gen_env_line(r: &mut Rng, len: usize, wide: bool) -> String {
-    let names: &[&str] = if wide { &["a", "A", "b", "B", "ab", "Ab", "AB", "ü", "Ü", "x_1", "X_1", "é", "É", "ж", "Ж", "long", "LONG", "Long", "q", "if_then"] } else { &["a", "A", "b", "B"] };
+    let names: &[&str] = if wide { &["a", "A", "b", "B", "ab", "Ab", "AB", "ü", "Ü", "x_1", "X_1", "é", "É", "ж", "Ж", "long", "LONG", "Long", "q", "if_then",
+        // special casing: titlecase digraphs, sharp s, dotted capital I, final sigma, ligature
+        "ǅungla", "ǆungla", "ǄUNGLA", "straße", "STRASSE", "İx", "i\u{307}x", "ΟΔΟΣ", "οδος", "οδοσ", "ﬁn", "FIN", "Ⅷ", "ⅷ"] } else { &["a", "A", "b", "B"] };
     let behs = ["first", "cnt", "fail", "arr", "k0", "k1", "k2", "k3", "last"];
     let mut p = vec!["env".to_string()];
     for _ in 0..len {
@@ -174,7 +191,7 @@ pub fn gen_env_line(r: &mut Rng, len: usize, wide: bool) -> String {
             7 => format!("gv {}", n),
             8 => format!("ve {}", n),
             9 => { let k = r.below(3); let mut s = format!("cl {} {}", n, k); for _ in 0..k { s.push(' '); s.push_str(&show_in(&gen_small_val(r))); } s }
-            10 => format!("fe {} {}", n, r.below(5)),
+            10 => format!("fe {} {}", n, if r.chance(1, 6) { *r.pick(&[98u64, 99, 100, 101, 250, 1000]) } else { r.below(5) }),
             11 => "lf".to_string(),
             12 => { let k = r.below(3); let mut s = format!("afs {}", k); for _ in 0..k { s.push_str(&format!(" {} {} {} {} {} {}", hex(*r.pick(names)), r.pick(&['P', 'V', 'N']), r.below(3), r.below(3), r.below(2), r.pick(&behs))); } s }
             _ => format!("gv {}", n),
